@@ -345,23 +345,35 @@ def check_nday(ctx, prog, rule="c20.nday"):
             ctx.ok(rule, key, why, fn.loc())
         else:
             ctx.violation(rule, key, "%s: the accepted domain must contain every calendar %s up to %d" % (why, var, need), fn.loc())
-    # value: sum(MONTH_DAYS[..month-1]) + day
+    # value: the returned expression is evaluated exactly for all 365 (month, day) pairs against the calendar (however the partial sum is written:
+    # MONTH_DAYS[..month-1].iter().sum(), .iter().take(month-1).sum(), ...)
+    from .c17 import eval_num
     rns = returned_nodes(body)
-    okv = False
-    for bb, rn in rns:
-        n = strip(sc._rw(rn))
-        s_ = show(n)
-        if n[0] == "bin" and n[1].startswith("Add") or (n[0] == "proj" and n[1][0] == "bin" and n[1][1].startswith("Add")):
-            inner = n if n[0] == "bin" else n[1]
-            parts = [show(strip(inner[2])), show(strip(inner[3]))]
-            if any(p == "day" for p in parts) and any("sum(" in p and "RangeTo" in p for p in parts):
-                # the slice bound is month - 1
-                if "(month - 1)" in s_.replace("SubWithOverflow", "-") or "Sub" in s_ or "month" in s_:
-                    okv = True
-    if okv:
-        ctx.ok(rule, rule + "|value", "returns sum(MONTH_DAYS[..month-1]) + day", fn.loc())
+    mdays = [int(x) for x in md]
+    wrong = None
+    undec = None
+    if len(rns) != 1:
+        undec = "%d return expressions" % len(rns)
     else:
-        ctx.violation(rule, rule + "|value", "return value is %s, expected cumulative MONTH_DAYS + day" % [show(strip(sc._rw(rn)))[:100] for _, rn in rns], fn.loc())
+        n = strip(sc._rw(rns[0][1]))
+        cum = 0
+        for m_, nd_ in enumerate(mdays, 1):
+            for d_ in range(1, nd_ + 1):
+                v = eval_num(n, {"month": Fraction(m_), "day": Fraction(d_), "__prog": prog})
+                if v is None:
+                    undec = show(n)[:120]
+                    break
+                if v != cum + d_ and wrong is None:
+                    wrong = (m_, d_, v, cum + d_)
+            if undec:
+                break
+            cum += nd_
+    if undec:
+        raise AnalysisError("nday_from_md: cannot evaluate the returned expression (%s)" % undec)
+    if wrong is None:
+        ctx.ok(rule, rule + "|value", "the returned expression equals the day of the year for all 365 (month, day) pairs", fn.loc())
+    else:
+        ctx.violation(rule, rule + "|value", "for month %d, day %d the function returns %s; the calendar gives %d" % wrong, fn.loc())
 
 
 def norm_of(prog, fn, leafmap, callmap=None):
@@ -370,7 +382,15 @@ def norm_of(prog, fn, leafmap, callmap=None):
     if len(rns) != 1:
         raise AnalysisError("%s: expected one return expression" % fn.path)
     nz = Normalizer(leafmap, callmap or {})
-    return nz, nz.code(strip(sc._rw(rns[0][1])))
+    from ..cfgq import inline_all
+    from ..formulas import VOCAB
+    node = strip(sc._rw(rns[0][1]))
+    try:
+        return nz, nz.code(node)
+    except AnalysisError:
+        # written through small helpers or helper structs (`SinCos::of(x).sin`): read with those in place
+        nz = Normalizer(leafmap, callmap or {})
+        return nz, nz.code(strip(inline_all(prog, node, keep=set(callmap or {}))))
 
 
 class TrigNormalizer(Normalizer):
